@@ -69,6 +69,11 @@ def directed_scenarios(rnd):
         A.t_struct("D4", [A.field("m", u8), A.field("rows", A.t_arr(row, A.L_expr(A.e_id("m")))), A.field("t", u8)]),
         A.t_struct("D5", [A.field("n", u8), A.field("body", A.t_struct("ub", [A.field("x", A.t_arr(u8, A.L_expr(A.e_id("n")))), A.field("y", u16)], union=True)),
                           A.field("l", A.t_leb(False)), A.field("q", A.t_arr(u8, A.L_expr(A.e_id("l"))))]),
+        # parenthesised and nested operators: every branch of the evaluator (closing parenthesis, precedence pops, unary) runs
+        A.t_struct("D6", [A.field("a", u8), A.field("b", u8),
+                          A.field("data", A.t_arr(u8, A.L_expr(A.e_bin("*", A.e_bin("+", A.e_id("a"), A.e_id("b")), A.e_lit(2))))),
+                          A.field("more", A.t_arr(u16, A.L_expr(A.e_bin("&", A.e_bin("-", A.e_bin("<<", A.e_id("a"), A.e_lit(1)), A.e_un("-", A.e_id("b"))), A.e_lit(7))))),
+                          A.field("tail", u8)]),
     ]
     out = []
     for t in defs:
@@ -143,7 +148,7 @@ class ThreadsCheck:
                     "deterministic scheduler (sys.settrace line events in dissect/cstruct and generated readers): EVERY "
                     "single-preemption schedule of thread 0 and of thread 1 (sampled above the budget), sampled double preemptions and "
                     "3-thread rotations, over random definitions with expression lengths, bit-fields, unions, pointers (dereferenced in "
-                    "the thread) and arrays, both readers, plus five directed definitions (lengths from fields in 1 and 2 dimensions, bit units, "
+                    "the thread) and arrays, both readers, plus six directed definitions (lengths from fields in 1 and 2 dimensions, bit units, "
                     "arrays of dynamic structures, union, LEB128 length) on small, different inputs; every distinct per-thread outcome is validated against Decode; "
                     "non-trivial = distinct (scenario, thread, outcome) records")
         run_mc(rep, "MC_Threads", cfg="MC_Threads_3" if thorough else "MC_Threads")
